@@ -297,6 +297,60 @@ PROPS = {
         "rule": "as C14 (session suite: pointers recomputed from bytes for every file incl. interleaved cleaners and later sessions); hashes: salts zero/ones/random",
         "assumptions": ["data-hash collision appears as a disjunct of C03_bytes_function", "concurrency beyond interleaved add_data calls on one thread is not exercised"],
     },
+    "C01": {
+        "modules": ["XetProps.C01"],
+        "theorems": ["Xet.Dedup.C01_inv_init", "Xet.Dedup.C01_inv_step", "Xet.Dedup.C01_inv_calls", "Xet.Dedup.C01_inv_spelled",
+                     "Xet.Dedup.C01_finalize", "Xet.Dedup.C01_merge_in", "Xet.Dedup.C01_agg_finalize",
+                     "Xet.Dedup.C01_roundtrip", "Xet.Dedup.C01_range", "Xet.Dedup.C01_range_is_slice",
+                     "Xet.Dedup.rangeBytes_eq", "Xet.Dedup.truthful_hash_to_data"],
+        "suites": ["session", "deduper"],
+        "level_text": "Invariant proved for every hash primitives, limits (incl. 0/1), EVERY defrag decision procedure, every store and every "
+                      "data-truthful oracle, over every history of interleaved files and completions followed by finish: each file's segments resolve "
+                      "(in the store plus the xorbs this session cut) to exactly the chunks fed; preserved by continue-merge, new segment, local "
+                      "self-reference, rejection, cuts (patching exactly the internal refs), merge_in's shift and DataAggregator::finalize. Hence every "
+                      "finished file's record downloads to the fed bytes and every byte range to the corresponding slice. Tied to the Rust by real "
+                      "sessions on a local store (several sessions per store, five [eleven] limit configurations): every file downloaded whole and by "
+                      "range after each session, and the model replays each session (chunker + dedup + aggregation) and reproduces pointers, puts, "
+                      "records and metrics exactly. Partial: concurrency beyond interleaved add_data calls and the HTTP path are not modelled here "
+                      "(the reconstruction arithmetic is C17).",
+        "design_ref": "DESIGN.md section 4, C01..C11; Appendix A.2",
+        "technique": "Lean 4 proof (resolve invariant over all histories) + differential correspondence on real sessions",
+        "rule": "session: 5 [11] limit configurations x 2 [12] stores x 2-4 sessions x 1-5 files built from fresh bytes, stretches of earlier files "
+                "and repeated blocks (cross-file, cross-session and self dedup), empty / sub-chunk / multi-xorb sizes, random add_data partitions, "
+                "sequential or interleaved cleaners, re-uploads; every file of the store downloaded whole + 3 ranges after each session; "
+                "distinct by hash of the session op; non-trivial = non-empty session",
+        "assumptions": ["oracle answers are data-truthful (C05 + no data-hash collision: truthful_hash_to_data is in collision-extraction form)",
+                        "StoreConsistent / NoZeroName on the final store (C06 collision-freeness, extraction form)",
+                        "every chunk has at least one byte (C04_bounds_all)"],
+    },
+    "C02": {
+        "modules": ["XetProps.C02"],
+        "theorems": ["Xet.Dedup.C02_names", "Xet.Dedup.C02_casinfo", "Xet.Dedup.C02_consistent", "Xet.Dedup.C02_no_zero_segment"],
+        "suites": ["session"],
+        "level_text": "For every history (same quantifiers as C01): every xorb put is named cas_node_hash of its chunks and its CAS info entries are the "
+                      "running sums; every emitted file record has in-range segments in the final store whose byte counts are the sums of the referenced "
+                      "chunk lengths, file hash = file_node_hash(all chunks, salt), verification[i] = range hash of the hashes segment i covers, "
+                      "metadata = the SHA passed in. That the SHA is SHA-256 of the bytes, that stored xorbs decode and are accepted by "
+                      "validate_cas_object for their own name is decided on real sessions by an independent validator in the suite (xorb files read "
+                      "from disk, chunk hashes recomputed) and by the Lean SHA-256.",
+        "design_ref": "DESIGN.md section 4, C01..C11",
+        "technique": "Lean 4 proof + independent validator over the real store and shards",
+        "rule": "as C01; every session's returned file records and every put xorb are validated; SHA-256 of every file recomputed by the Lean implementation",
+        "assumptions": ["as C01"],
+    },
+    "C11": {
+        "modules": ["XetProps.C11"],
+        "theorems": ["Xet.Dedup.C11_recorded", "Xet.Dedup.C11_recorded_always", "Xet.Dedup.C11_chunks_recorded"],
+        "suites": ["session"],
+        "level_text": "For every history, legal or not: every xorb handed to the store (cut mid-file or from the session aggregator, incl. the final "
+                      "one) has its CAS info registered with the session shard, and every chunk of it is in that info. The second half (a later session "
+                      "finds it and transfers no new chunk bytes) goes through ShardFileManager, which is not modelled in this revision: it is checked "
+                      "on real stores by re-uploading earlier files unchanged in later sessions (partial).",
+        "design_ref": "DESIGN.md section 4, C01..C11",
+        "technique": "Lean 4 proof + differential correspondence / monitor on real multi-session stores",
+        "rule": "as C01; about half of the later sessions re-upload earlier files unchanged and must report new_bytes = 0",
+        "assumptions": ["shard manager lookup completeness (no truncated-prefix collision, offsets <= u16::MAX, index below its cap) is not a theorem here"],
+    },
 }
 
 HOOK_COMMITS = ["9bb2102", "a056c58", "25c3aff", "24644df", "9cc9f64"]
